@@ -500,13 +500,21 @@ func main() {
 				break
 			}
 			m := 3 + rng.Intn(4)
+			// which request the receiver stalls on: the oldest, or (half the time) a later one - then the
+			// answers to the requests before it are not to be held back behind it
+			stall := 0
+			if rng.Intn(2) == 0 {
+				stall = 1 + rng.Intn(m-1)
+			}
 			smu.Lock()
 			scripts = nil
 			for i := 0; i < m; i++ {
 				wr := &raft.AppendEntriesResponse{RPCHeader: raft.RPCHeader{ProtocolVersion: 3}, Term: 7, LastLog: uint64(2000 + i), Success: true}
 				d := time.Duration(0)
-				if i == 0 {
+				if i == stall {
 					d = 400 * time.Millisecond // longer than the sender's timeout
+				} else if i == 0 {
+					d = 20 * time.Millisecond // the later requests have arrived by the time this one is answered
 				}
 				scripts = append(scripts, script{resp: wr, delay: d})
 			}
@@ -521,6 +529,21 @@ func main() {
 			}
 			// every request that was accepted completes, in send order, with an error or its own response
 			delivered, paired := 0, true
+			// the requests before the stalled one are answered at once, with their own responses
+			prompt := time.After(250 * time.Millisecond)
+		early:
+			for delivered < stall && delivered < sent {
+				select {
+				case f := <-pl.Consumer():
+					if f.Request().PrevLogEntry != uint64(delivered) || f.Error() != nil || f.Response().LastLog != 2000+f.Request().PrevLogEntry {
+						paired = false
+					}
+					delivered++
+				case <-prompt:
+					paired = false
+					break early
+				}
+			}
 			deadline := time.After(3 * time.Second)
 		collect:
 			for delivered < sent {
